@@ -332,7 +332,8 @@ class World(object):
         if c is None:
             raise OutOfReach('no contract for callee %s' % fn.fullname)
         cur = self.current
-        if cur is not None and c.name in (cur.decl.get('inline_callees') or ()):
+        inl = (cur.decl.get('inline_callees') or ()) if cur is not None else ()
+        if cur is not None and (c.name in inl or fn.qualname in inl):
             # a small helper of the same class, itself under contract, executed inline (flagged: not modular at this call site)
             it.ctx.flags.add('inlined callee %s in %s' % (c.name, cur.name))
             return it.run_function(fn.node, fn.module, args, kwargs, func=fn)
@@ -1291,6 +1292,31 @@ class SpecAPI(object):
         cls = self.world.module_attr(it, m, 'ParsedLabel')
         return Obj(cls, {'index': a[0], 'label': a[1], 'is_absolute': a[2]})
 
+    def s_first_error(self, it, a, k):
+        """ the first error item of a sequence that contains one """
+        items = a[0]
+        if isinstance(items, (list, tuple)):
+            for x in items:
+                if self._kind_test(it, x, (ERR,)):
+                    return x
+            return None
+        seq = items.pay(LIST)
+        e = it.ctx.fresh_val('first_err', kinds=(ERR,))
+        idx = it.ctx.fresh(z3.IntSort(), 'first_err_idx')
+        j = z3.Int('fe!j')
+        it.ctx.assume(z3.And(idx >= 0, idx < z3.Length(seq), seq[idx] == e.val,
+                             z3.ForAll([j], z3.Implies(z3.And(j >= 0, j < idx), z3.Not(REC[ERR](seq[j]))))))
+        return e
+
+    def s_numeric_items(self, it, a, k):
+        raise OutOfReach('numeric_items: filtering a symbolic sequence by type (bounded only)')
+
+    def s_stat(self, it, a, k):
+        return getattr(self.world.builtins, 'x_statistics_' + a[0])(it, [a[1]], {})
+
+    def s_wildcard_match(self, it, a, k):
+        return self.world.builtins.x_fnmatch_fnmatch(it, [a[0], a[1]], {})
+
     def s_acot(self, it, a, k):
         return self.world.builtins.libm(it, 'acot', a)
 
@@ -1330,12 +1356,17 @@ class SpecAPI(object):
         raise OutOfReach('replace_kth: k-th occurrence replacement has no SMT definition (bounded only)')
 
     def s_int_of_text(self, it, a, k):
+        if isinstance(a[0], str):
+            return int(a[0])
         s = as_sym(a[0])
         if it.ctx.narrow(s) != STR:
             raise OutOfReach('int_of_text of non-text')
         return mk_int(py_int(s.pay(STR)))
 
     def s_text_is_int(self, it, a, k):
+        if not isinstance(a[0], Sym):
+            from . import api as _api
+            return _api.text_is_int(a[0])
         s = as_sym(a[0])
         if it.ctx.narrow(s) != STR:
             return False
@@ -1343,12 +1374,17 @@ class SpecAPI(object):
         return it.ctx.branch(py_int_ok(s.pay(STR)))
 
     def s_float_of_text(self, it, a, k):
+        if isinstance(a[0], str):
+            return float(a[0])
         s = as_sym(a[0])
         if it.ctx.narrow(s) != STR:
             raise OutOfReach('float_of_text of non-text')
         return mk_float(py_float(s.pay(STR)))
 
     def s_text_is_float(self, it, a, k):
+        if not isinstance(a[0], Sym):
+            from . import api as _api
+            return _api.text_is_float(a[0])
         s = as_sym(a[0])
         if it.ctx.narrow(s) != STR:
             return False
